@@ -74,6 +74,8 @@ def eval_dyad_amend(a, b, backend):
             r[i] = b[0]
         r = backend.kg_asarray(r)
     else:
+        if r.dtype != object and not (backend.is_integer(b[0]) or (backend.is_float(b[0]) and r.dtype.kind == 'f')):
+            r = r.astype(object)  # the new member keeps its own type instead of being cast to the array's
         numpy.put(r, numpy.asarray(b[1:],dtype=int), b[0])
     return r
 
@@ -85,7 +87,11 @@ def _e_dyad_amend_in_depth(p, q, v):
         p[q[0]] = r
         return p
     else:
-        p = bknp.array(p, dtype=object) if isinstance(v, (str, KGSym)) else bknp.array(p)
+        p = bknp.array(p)
+        if isinstance(v, (str, KGSym)) or (p.dtype.kind == 'i' and isinstance(v, (float, numpy.floating))):
+            p = p.astype(object)  # the new member keeps its own type
+        if bknp.isarray(q):
+            q = int(q[0])  # a single index may arrive in an object array
         p[q] = v
         return p
 
